@@ -80,11 +80,10 @@ structure Struct (dying : List Id) (h : Heap) : Prop where
     (n.pLayerSet = some a → ancOf h .layerSet x = some a) ∧
     (n.pFont = some a → ancOf h .font x = some a) ∧
     (n.disp = some a → ancOf h .font x = some a)
-  /-- a glyph in a layer stores its layer set and font; layers, layer sets are never without font -/
+  /-- a glyph in a layer stores its layer set and font; a layer in a layer set is never without font -/
   full : ∀ x n, h.get x = some n →
     (n.kind = .glyph → n.pLayer ≠ none → n.pLayerSet ≠ none ∧ n.pFont ≠ none) ∧
-    (n.kind = .layer → n.pLayerSet ≠ none → ancOf h .font x ≠ none) ∧
-    (n.kind = .layerSet → n.pFont ≠ none)
+    (n.kind = .layer → n.pLayerSet ≠ none → ancOf h .font x ≠ none)
 
 /-- The invariant: the structure, and every registration is an object's observation of itself or a
 container's observation of an object it owns, in the centre of the font the object belongs to. -/
